@@ -933,6 +933,13 @@ namespace mc
                 catch (Abort &)
                 {
                 }
+                catch (Skip &)
+                {
+                    if (to_stdout)
+                        printf("case skipped by the harness (owned by another partition)\n");
+                    fflush(nullptr);
+                    _exit(0);
+                }
                 if (to_stdout)
                     printf("case %s\n", clean(case_desc).c_str());
                 commit_case(false);
